@@ -85,3 +85,25 @@ def iso_name(unique=12345, mfr=229, inst_lower=0, inst_upper=0, function=130, de
 
 def claim_packet(src, name, dst=255, prio=6):
     return ebyte_packet(can_id(prio, 60928, src, dst), name.to_bytes(8, "little"))
+
+
+def entry_points(pgn, payload, fast, prio=3, src=7, dst=255, seq=5):
+    """name -> callable(decoder): the same message through every way a decoder can be handed it"""
+    ident = can_id(prio, pgn, src, dst)
+    frames = fast_frames(seq, payload, None) if fast else [payload]
+
+    def framewise(one):
+        def run_(d):
+            last = None
+            for fr in frames:
+                last = one(d, fr)
+            return last
+        return run_
+    out = {"actisense": lambda d: d.decode_actisense_string(actisense_line(prio, dst, src, pgn, payload)),
+           "plain_combined": lambda d: d.decode_basic_string(plain_line(prio, pgn, src, dst, payload), already_combined=True)}
+    if fast or len(payload) <= 8:
+        out["ebyte"] = framewise(lambda d, fr: d.decode_tcp(ebyte_packet(ident, fr)))
+        out["usb"] = framewise(lambda d, fr: d.decode_usb(usb_packet(ident, fr)))
+        out["yd"] = framewise(lambda d, fr: d.decode_yacht_devices_string(yd_line(ident, fr)))
+        out["plain_frames"] = framewise(lambda d, fr: d.decode_basic_string(plain_line(prio, pgn, src, dst, fr)))
+    return out
